@@ -161,6 +161,7 @@ type SpecFunc struct {
 
 type Contracts struct {
 	File       string
+	AssumeProp string // when set: the property being checked (see runAtClause)
 	Funcs      map[string]*FuncContract // incl. funcfield "(*T).f" keyed "ff:(*T).f" and interface "if:I.m"
 	Types      map[string]*TypeContract
 	Consts     map[string]struct{ Type string; Val *big.Int }
